@@ -510,8 +510,26 @@ package rsm
 //@ ensures result2 == nil ==> result0 != nil
 //@ func (sr *SnapshotReader) Close [C14]
 //@ trusted closes the file
-//@ func (sw *SnapshotWriter) Close [C14]
-//@ trusted flushes, writes the header, syncs and closes the file
+// C16: a snapshot image is complete on disk when its writer has been closed successfully -- the
+// payload AND the header (written last, at offset 0) are fsynced; nothing is written to the file
+// after its only fsync. gSnapFileDirty: bytes were written to the image file since its last fsync.
+//@ ghost var gSnapFileDirty bool
+//@ func (sw *SnapshotWriter) flush [C16]
+//@ trusted closes the block writer, which writes the remaining payload blocks and the tail
+//@ modifies gSnapFileDirty
+//@ ghostset gSnapFileDirty := true
+//@ func (sw *SnapshotWriter) saveHeader [C16]
+//@ trusted marshals the header and writes it at offset 0 of the image file
+//@ modifies gSnapFileDirty
+//@ ghostset gSnapFileDirty := true
+//@ extern github.com/lni/vfs (f File) Sync
+//@ ghostset gSnapFileDirty := old(gSnapFileDirty) && result != nil
+//@ extern github.com/lni/vfs (f File) Close
+//@ func (sw *SnapshotWriter) Close [C14 C16]
+//@ noframe
+//@ nobounds
+//@ modifies gSnapFileDirty, sw.closed
+//@ ensures err == nil ==> !gSnapFileDirty
 //@ func (sw *SnapshotWriter) Write [C14]
 //@ trusted writes through the block writer
 //@ func GetEmptyLRUSession [C14]
@@ -673,3 +691,20 @@ package rsm
 //@ requires ds.sm != nil
 //@ ensures result1 == nil && meta.Request.Type == Exported && !ds.config.IsWitness ==> !result0
 //@ ensures result1 == nil && ds.config.IsWitness ==> result0
+
+// ---------------------------------------------------------------- batched apply: the reported result is the state machine's (C12)
+// From the property: a completed proposal carries the value the state machine returned for that
+// entry. uf("smres", i): the result value the user state machine returned for the entry with
+// index i (each index is applied once). BatchedUpdate returns the results in a slice of its own
+// choosing -- not necessarily the one it was given.
+//@ iface (m IManagedStateMachine) BatchedUpdate
+//@ ensures result1 == nil ==> (forall i int :: 0 <= i && i < len(result0) ==> uf("smres", result0[i].Index) == result0[i].Result.Value)
+//@ func (s *StateMachine) onApplied [C12]
+//@ trusted forwards the result to the node (INode.ApplyUpdate), which completes the pending proposal with it
+//@ requires !ignored ==> uf("smres", e.Index) == result.Value
+//@ func (s *StateMachine) handleBatch [C12]
+//@ noframe
+//@ nobounds
+//@ requires s.index < MaxUint64 && (forall i int :: 0 <= i && i < len(input) ==> input[i].Index < MaxUint64)
+//@ loop 1 invariant s.index < MaxUint64
+//@ loop 2 invariant s.index < MaxUint64
